@@ -100,6 +100,7 @@ type harness struct {
 	gateH   bool // gate the message handler of test actors
 	msgid   atomic.Int64
 	spin    int
+	grains  map[string]*actor.GrainIdentity
 }
 
 func (h *harness) real(n string) string { return n + h.sfx }
@@ -291,6 +292,35 @@ func (a *tact) Receive(ctx *actor.ReceiveContext) {
 	}
 }
 
+// ---------------------------------------------------------------- test grain
+
+type tgrain struct {
+	h    *harness
+	name string
+}
+
+func (g *tgrain) OnActivate(context.Context, *actor.GrainProps) error {
+	g.h.emit("gact", func(e map[string]any) { e["n"] = g.name })
+	return nil
+}
+
+func (g *tgrain) OnReceive(ctx *actor.GrainContext) {
+	if m, ok := ctx.Message().(*Msg); ok {
+		g.h.emit("ghandle", func(e map[string]any) { e["n"] = g.name; e["c"] = m.ID })
+		for i := 0; i < g.h.spin; i++ {
+			runtime.Gosched()
+		}
+		ctx.NoErr()
+		return
+	}
+	ctx.Unhandled()
+}
+
+func (g *tgrain) OnDeactivate(context.Context, *actor.GrainProps) error {
+	g.h.emit("gdeact", func(e map[string]any) { e["n"] = g.name })
+	return nil
+}
+
 // ---------------------------------------------------------------- operations
 
 func (h *harness) threadIndex(t string) int {
@@ -380,6 +410,11 @@ func (h *harness) execOp(t string, o opT, self *actor.PID) {
 		h.emit("call", func(e map[string]any) { e["t"] = t; e["op"] = o.Op; e["n"] = o.N; e["c"] = id })
 		err := actor.Tell(ctx, h.handle[o.N], &Msg{ID: id})
 		h.emit("ret", func(e map[string]any) { e["t"] = t; e["op"] = o.Op; e["n"] = o.N; e["c"] = id; e["ok"] = b2i(err == nil) })
+	case "tellg":
+		id := int(h.msgid.Add(1))
+		h.emit("call", func(e map[string]any) { e["t"] = t; e["op"] = o.Op; e["n"] = o.N; e["c"] = id })
+		err := h.sys.TellGrain(ctx, h.grains[o.N], &Msg{ID: id})
+		h.emit("ret", func(e map[string]any) { e["t"] = t; e["op"] = o.Op; e["n"] = o.N; e["c"] = id; e["ok"] = b2i(err == nil) })
 	case "sysstop":
 		call()
 		err := h.sys.Stop(ctx)
@@ -448,6 +483,16 @@ func (h *harness) setup() {
 	}
 	for _, e := range h.scn.Watch {
 		h.handle[e[0]].Watch(h.handle[e[1]])
+	}
+	h.grains = map[string]*actor.GrainIdentity{}
+	for k := 1; k <= h.scn.Grains; k++ {
+		name := "g" + strconv.Itoa(k)
+		g := &tgrain{h: h, name: name}
+		id, err := h.sys.GrainIdentity(h.ctx, name+h.sfx, func(context.Context) (actor.Grain, error) { return g, nil }, actor.WithLongLivedGrain())
+		if err != nil {
+			fatal("setup grain", err)
+		}
+		h.grains[name] = id
 	}
 }
 
@@ -937,32 +982,58 @@ func (r *runner) exec(x step) {
 	case "RsAddW":
 		simple(r.th(arg0), "tree.addWatcher")
 	case "SsRest":
+		// the rest of ActorSystem.Stop is one model step: run the thread, and every goroutine goakt starts or
+		// schedules meanwhile (freeChildren goroutines of the system guardians, dispatcher workers), until Stop returns
 		th := r.th(arg0)
-		for i := 0; i < 4000 && r.drift == ""; i++ {
-			p, parked := r.s.Pending(th)
-			if parked && (p.Done || p.Point == "op.call") {
-				break
-			}
-			if parked {
-				if err := r.s.Release(th); err != nil {
-					r.setDrift("SsRest:%v", err)
+		active := []string{th}
+		if r.dwth != "" {
+			active = append(active, r.dwth)
+			r.dwth = ""
+		}
+		finished := false
+		for i := 0; i < 20000 && !finished; i++ {
+			for {
+				name, ok := r.s.WaitAdopted(200 * time.Microsecond)
+				if !ok {
 					break
 				}
-			}
-			if _, ok := r.s.TryAwait(th, 2*time.Millisecond); !ok {
-				// the thread may be waiting for a dispatcher worker: let workers run
-				for r.adopted < h.pushes.Load() {
-					name, ok := r.s.WaitAdopted(10 * time.Millisecond)
-					if !ok {
-						break
-					}
-					r.classify(name)
+				if p, _ := r.s.Pending(name); p.Point == "ds.take.cas" {
+					r.adopted++
 				}
+				active = append(active, name)
 			}
+			next := active[:0]
+			for _, a := range active {
+				p, parked := r.s.Pending(a)
+				if !parked {
+					if q, ok := r.s.TryAwait(a, 200*time.Microsecond); ok {
+						p, parked = q, true
+					}
+				}
+				if parked {
+					if p.Done {
+						if a == th {
+							finished = true
+						}
+						continue
+					}
+					if a == th && p.Point == "op.call" {
+						finished = true
+						next = append(next, a)
+						continue
+					}
+					if err := r.s.Release(a); err != nil {
+						continue
+					}
+				}
+				next = append(next, a)
+			}
+			active = next
 		}
-		if p, parked := r.s.Pending(th); !parked || !(p.Done || p.Point == "op.call") {
+		if !finished {
 			r.setDrift("SsRest:did-not-finish")
 		}
+		r.adopted = h.pushes.Load() // workers scheduled during the shutdown may never run (the dispatcher is stopped)
 	default:
 		r.setDrift("unknown-action:%s", x.A)
 	}
